@@ -199,6 +199,9 @@ func fetchDiamonds(repo string, store storage.Store, settings Settings,
 	doneWithKeysChan chan<- struct{}, doneChan <-chan struct{}, wg *sync.WaitGroup) {
 	defer func() {
 		close(batchChan)
+		// drain: after an early exit, let the upstream key scan and merge stages terminate
+		for range keysChan { //nolint:revive
+		}
 		wg.Done()
 	}()
 
